@@ -37,7 +37,7 @@ const (
 	fundOutputs    = 20
 	farFuture      = int64(4000000000)
 	seqNonFinal    = uint32(0xfffffffe)
-	worldCount     = 3
+	worldCount     = 4
 	regtestGenesisTime = int64(1296688602)
 	maxUint32Const = math.MaxUint32
 )
@@ -60,6 +60,16 @@ func (c *fakeClock) set(t int64) {
 	c.mu.Lock()
 	c.now = time.Unix(t, 0)
 	c.mu.Unlock()
+}
+
+// blocksOf is the length of a world's chain.  World 3 is short so that the next
+// heights are 15..18: the BIP34 height in the coinbase script changes from a
+// small-integer opcode (OP_15, OP_16) to a data push (0x01 0x11).
+func blocksOf(world int) int {
+	if world == 3 {
+		return 14
+	}
+	return worldBlocks
 }
 
 // spacing is the block interval of a world.  World 2 mines four times faster
@@ -357,7 +367,7 @@ func buildWorld(id int) (*world, error) {
 		val int64
 	}
 	cbs := map[int32]cbInfo{}
-	for h := int32(1); h <= worldBlocks; h++ {
+	for h := int32(1); h <= int32(blocksOf(id)); h++ {
 		var txs []*wire.MsgTx
 		if src, ok := cbs[h-worldMaturity-1]; ok && h >= 5 {
 			ft := fundingTx(src.op, src.val, int(h))
@@ -387,7 +397,7 @@ func buildWorld(id int) (*world, error) {
 		cbs[h] = cbInfo{wire.OutPoint{Hash: *cbt.Hash(), Index: 0}, cbt.MsgTx().TxOut[0].Value}
 	}
 	// The unspent coinbases (the most recent ones) close the catalogue.
-	for h := int32(1); h <= worldBlocks; h++ {
+	for h := int32(1); h <= int32(blocksOf(id)); h++ {
 		if c, ok := cbs[h]; ok {
 			w.catalog = append(w.catalog, utxo{op: c.op, val: c.val, height: h, kind: 'T', cb: true})
 		}
